@@ -34,7 +34,7 @@ ABORT_TYPES = tuple(ABORTS.values())
 
 tree_strategy = st.recursive(
     st.tuples(st.just("leaf"), st.sampled_from(["work", "raise", "cmp", "work", "raise-base", "raise-kbd", "raise-exit",
-                                                "raise-genexit", "raise-stopiter"])),
+                                                "raise-genexit", "raise-stopiter", "open-if-raise", "open-while-raise", "open-if-return"])),
     lambda ch: st.tuples(st.just("node"), st.integers(0, 1), st.sampled_from(["lc", "bool", "ite_true", "ite_false", "int1"]),
                          st.lists(ch, min_size=1, max_size=3), st.booleans()),
     max_leaves=8)
@@ -51,6 +51,7 @@ def make_machine(stats):
             self.hist = []
             self.exc_depth2 = False
             self.false_under_true = False
+            self.leaked = []
 
         # -- helpers
         def active(self):
@@ -127,6 +128,20 @@ def make_machine(stats):
             def run(node, depth, conds):
                 if node[0] == "leaf":
                     what = node[1]
+                    if what.startswith("open-") and depth == 0:
+                        what = "work"      # an unclosed block outside every region is the user's own leak, not a region exit
+                    if what.startswith("open-"):
+                        # a block context is opened inside the region and never closed: the enclosing region's own
+                        # restore (normal or exceptional exit) must still bring the state back
+                        bv = ns.br.BranchingValues()
+                        bv.x = rt.PrivVal(1)
+                        cctx = (ns.br.IfContext if "if" in what else ns.br.WhileContext)(ns.bo.PrivValBool(depth % 2), bv)
+                        machine.leaked.append(bv)
+                        if what.endswith("raise"):
+                            if depth >= 2:
+                                machine.exc_depth2 = True
+                            raise Sentinel()
+                        return
                     if what in ABORTS:
                         if depth >= 2:
                             machine.exc_depth2 = True
@@ -147,7 +162,10 @@ def make_machine(stats):
                 def body():
                     machine.check_inside(inner)
                     for ch in children:
-                        if catches and depth >= catch_level:
+                        if ch[0] == "leaf" and ch[1].startswith("open-") and ch is not children[-1]:
+                            continue      # an unclosed block is only meaningful as the last thing a region does
+                        leaks = ch[0] == "leaf" and ch[1].startswith("open-")
+                        if catches and depth >= catch_level and not leaks:     # a leaked block is only undone when its region ends
                             try:
                                 run(ch, depth + 1, inner)
                             except ABORT_TYPES:
@@ -246,6 +264,8 @@ def make_machine(stats):
             self.check_inside([])
 
         def teardown(self):
+            for bv in self.leaked:
+                del bv.stack[:]
             nt = self.exc_depth2 or self.false_under_true
             labels = ["steps:%d" % min(len(self.hist), 10)]
             if self.exc_depth2:
